@@ -59,6 +59,15 @@ type TunnelPlan struct {
 	//  wait:<flag> block until another script signals <flag>; signal:<flag> sets it
 	//  barrier     block until the scripts of all tunnels of the scenario are here
 	//  probe       record which resources of this very tunnel the gateway still holds now (other tunnels are alive)
+	// real tokens (ConcScenario.RealCookie): the access token the cookie carries (default "at-"+User; "at-u~2" is
+	// another token of u), whether the identity provider has revoked it, and the client address recorded in the
+	// cookie (default IP)
+	AccessToken string
+	Revoked     bool
+	CookieIP    string
+	// Expect: "" = the tunnel is served; "deny-cc" = its channel request is refused with the policy status and
+	// nothing is dialled for it; "deny-tc" = its tunnel request is refused
+	Expect      string
 	Chunks      [][]byte // what the backend of this tunnel writes after accepting
 	BackendEnds bool     // backend closes after its chunks
 	SplitLegacy bool     // legacy: open IN and OUT from two concurrent threads
@@ -97,6 +106,7 @@ type ConcScenario struct {
 	PostRead     bool // scheduling point after every gateway read on a client connection
 	ClientWindow int  // > 0: gateway writes to a client block once that many bytes are unread
 	RoundRobin   bool // default schedule advances the clients in lockstep (cyclic candidate order)
+	Fine         bool // statement-level scheduling points in web, security, identity, rdp are active
 	Deviation    bool // bound deviations from the default schedule instead of preemptions (multi-tunnel scenarios)
 	MaxSteps     int
 	WithEnrich   bool
@@ -161,8 +171,19 @@ func mintCookies(sc *ConcScenario) {
 	plans := append([]TunnelPlan{}, sc.Plans...)
 	for i := range plans {
 		p := &plans[i]
-		id := NewIdentity(p.User, p.IP, p.IP+":40000")
-		id.SetAttribute(identity.AttrAccessToken, "at-"+p.User)
+		cip := p.CookieIP
+		if cip == "" {
+			cip = p.IP
+		}
+		at := p.AccessToken
+		if at == "" {
+			at = "at-" + p.User
+		}
+		if p.Revoked {
+			theIdP.Revoked[at] = true
+		}
+		id := NewIdentity(p.User, cip, cip+":40000")
+		id.SetAttribute(identity.AttrAccessToken, at)
 		ctx := context.WithValue(context.Background(), identity.CTXKey, id)
 		host := p.TokenHost
 		if host == "" {
@@ -472,6 +493,8 @@ func RunConc(sc ConcScenario, prefix []int, logOn bool) *ConcResult {
 		max = 5000
 	}
 	ws0, lg0 := gauge("rdpgw_websocket_connections"), gauge("rdpgw_legacy_connections")
+	vsched.Fine = sc.Fine
+	defer func() { vsched.Fine = false }()
 	x := vsched.Run(prefix, max, logOn, func(x *vsched.Exec) { x.RoundRobin = sc.RoundRobin }, func() {
 		w := NewWorld()
 		w.Segmented = sc.Segmented
@@ -795,4 +818,53 @@ func boundKind(sc ConcScenario) string {
 		return "deviations from the default schedule (every non-default choice costs 1)"
 	}
 	return "preemptions (switches at blocking points are free)"
+}
+
+// expectCheck judges every tunnel of a scenario against its plan's Expect.
+func expectCheck(prop string, sc ConcScenario) func(res *ConcResult, races []RaceReport) (string, []vsched.Violation) {
+	return func(res *ConcResult, races []RaceReport) (string, []vsched.Violation) {
+		var v []vsched.Violation
+		add := func(k, d string) { v = append(v, vsched.Violation{Sig: prop + "/" + k + "/" + sc.Name, Detail: d}) }
+		for _, p := range res.X.Panics() {
+			add("panic:"+shortFn(panicSite(p)), p.Value)
+		}
+		var o []string
+		dialled := map[string]int{}
+		for _, d := range res.World.Net.Dials {
+			dialled[d.Address]++
+		}
+		for _, t := range res.Tunnels {
+			p := t.Plan
+			who := fmt.Sprintf("tunnel %s (user %s from %s asking for %s)", p.ConnID, p.User, p.IP, p.Host)
+			switch p.Expect {
+			case "":
+				if t.SetupFailed != "" {
+					add("tunnel-that-must-be-served-is-refused", who+": "+t.SetupFailed)
+				}
+			case "deny-cc":
+				want := "got-9-status-" + fmt.Sprintf("%x", tsgu.ERAPAccessDenied) + "-waiting-for-9"
+				if t.SetupFailed != want {
+					add("channel-that-must-be-refused-is-not", fmt.Sprintf("%s: %q, want %q", who, t.SetupFailed, want))
+				}
+			case "deny-tc":
+				if !strings.Contains(t.SetupFailed, "waiting-for-5") {
+					add("tunnel-request-that-must-be-refused-is-not", fmt.Sprintf("%s: %q", who, t.SetupFailed))
+				}
+			}
+			o = append(o, fmt.Sprintf("%s=%q", p.ConnID, t.SetupFailed))
+		}
+		// connections to hosts: at most one per tunnel that is to be served, none for the others
+		allowed := map[string]int{}
+		for _, t := range res.Tunnels {
+			if t.Plan.Expect == "" {
+				allowed[t.Plan.Host]++
+			}
+		}
+		for addr, n := range dialled {
+			if n > allowed[addr] {
+				add("dial-for-a-refused-tunnel", fmt.Sprintf("%d connection(s) to %s, %d tunnel(s) may have one", n, addr, allowed[addr]))
+			}
+		}
+		return strings.Join(o, " "), v
+	}
 }
